@@ -4,7 +4,8 @@
    spline(t)/t) about which the hypotheses of each theorem say what is
    assumed - nothing is assumed globally. *)
 From Coq Require Import List Bool Reals Lra Permutation.
-From PG Require Import Thermo.Num Thermo.RawData Thermo.RawData_proofs.
+From Coquelicot Require Import Coquelicot.
+From PG Require Import Thermo.Num Thermo.RawData Thermo.RawData_proofs Thermo.Integrals.
 Import ListNotations.
 Local Open Scope R_scope.
 
@@ -62,6 +63,71 @@ Theorem C05_construct_span : forall pts range H S Tref c,
   forall p, In p pts -> r_minT c <= fst p <= r_maxT c.
 Proof. exact construct_span. Qed.
 Print Assumptions C05_construct_span.
+
+(* ---- integral clauses (Coquelicot's Riemann integral is_RInt) ----
+   cp_ext spl c is the heat capacity get_CpoR reports (C05_cp_is_integrand);
+   T*H/RT and S/R are the reference value plus its integral (resp. of Cp/T)
+   from T_ref to T for EVERY placement of T_ref and T relative to the table,
+   and hence differences between two temperatures are integrals too.
+   Hypotheses = the contract of SciPy's spline.integral and of quad. *)
+Theorem C05_cp_is_integrand : forall (spl : R -> R) (c : @raw Rops) T,
+  r_lo c <= T <= r_hi c -> raw_cp (K:=Rops) spl c T = Ok (cp_ext spl c T).
+Proof. exact cp_is_cp_ext. Qed.
+Print Assumptions C05_cp_is_integrand.
+
+Theorem C05_h_is_integral_from_Tref : forall (spl : R -> R) (splint : R -> R -> R) (c : @raw Rops),
+  r_minT c <= r_maxT c ->
+  (forall a b, r_minT c <= a <= r_maxT c -> r_minT c <= b <= r_maxT c -> is_RInt spl a b (splint a b)) ->
+  forall T, r_lo c <= T <= r_hi c -> T <> 0 ->
+  exists I, raw_h (K:=Rops) splint c T = Ok ((r_H c * r_Tref c + I) / T)
+            /\ is_RInt (cp_ext spl c) (r_Tref c) T I.
+Proof. exact raw_h_integral. Qed.
+Print Assumptions C05_h_is_integral_from_Tref.
+
+Theorem C05_h_difference_is_integral : forall (spl : R -> R) (splint : R -> R -> R) (c : @raw Rops),
+  r_minT c <= r_maxT c ->
+  (forall a b, r_minT c <= a <= r_maxT c -> r_minT c <= b <= r_maxT c -> is_RInt spl a b (splint a b)) ->
+  forall T1 T2 h1 h2, r_lo c <= T1 <= r_hi c -> r_lo c <= T2 <= r_hi c -> T1 <> 0 -> T2 <> 0 ->
+  raw_h (K:=Rops) splint c T1 = Ok h1 -> raw_h (K:=Rops) splint c T2 = Ok h2 ->
+  is_RInt (cp_ext spl c) T1 T2 (T2 * h2 - T1 * h1).
+Proof. exact h_integral. Qed.
+Print Assumptions C05_h_difference_is_integral.
+
+Theorem C05_s_is_integral_from_Tref : forall (spl : R -> R) (c : @raw Rops) (quadS : R -> R -> R),
+  r_minT c <= r_maxT c ->
+  (forall a b, r_minT c <= a <= r_maxT c -> r_minT c <= b <= r_maxT c ->
+               is_RInt (fun t => spl t / t) a b (quadS a b)) ->
+  0 < r_minT c -> 0 < r_Tref c ->
+  forall T, r_lo c <= T <= r_hi c -> 0 < T ->
+  exists I, raw_s (K:=Rops) quadS lnrR c T = Ok (r_S c + I)
+            /\ is_RInt (cpt spl c) (r_Tref c) T I.
+Proof. intros spl c quadS Hs Hq. exact (raw_s_integral spl c Hs quadS lnrR (fun b a _ _ => eq_refl) Hq). Qed.
+Print Assumptions C05_s_is_integral_from_Tref.
+
+Theorem C05_s_difference_is_integral : forall (spl : R -> R) (c : @raw Rops) (quadS : R -> R -> R),
+  r_minT c <= r_maxT c ->
+  (forall a b, r_minT c <= a <= r_maxT c -> r_minT c <= b <= r_maxT c ->
+               is_RInt (fun t => spl t / t) a b (quadS a b)) ->
+  0 < r_minT c -> 0 < r_Tref c ->
+  forall T1 T2 s1 s2, r_lo c <= T1 <= r_hi c -> r_lo c <= T2 <= r_hi c -> 0 < T1 -> 0 < T2 ->
+  raw_s (K:=Rops) quadS lnrR c T1 = Ok s1 -> raw_s (K:=Rops) quadS lnrR c T2 = Ok s2 ->
+  is_RInt (cpt spl c) T1 T2 (s2 - s1).
+Proof. intros spl c quadS Hs Hq. exact (s_integral spl c Hs quadS lnrR (fun b a _ _ => eq_refl) Hq). Qed.
+Print Assumptions C05_s_difference_is_integral.
+
+(* non-vacuity of the integral hypotheses: a constant spline with its exact
+   integrals satisfies both contracts *)
+Example C05_integral_hyps_satisfiable :
+  let c := Build_raw (K:=Rops) 300 400 200 500 2 2 1 2 300 in
+  (forall a b, r_minT c <= a <= r_maxT c -> r_minT c <= b <= r_maxT c ->
+     is_RInt (fun _ => 2) a b ((b - a) * 2)) /\
+  (forall a b, r_minT c <= a <= r_maxT c -> r_minT c <= b <= r_maxT c ->
+     is_RInt (fun t => 2 / t) a b (2 * ln (b / a))).
+Proof.
+  simpl. split; intros a b Ha Hb.
+  - apply is_RInt_const_R.
+  - apply int_inv; lra.
+Qed.
 
 (* non-vacuity: a two-point table supplied in descending order constructs *)
 Example C05_example :
